@@ -181,10 +181,11 @@ theorem claimMulti_pres {σ : Type} {rw : RewardFn σ} (P : σ → Prop)
 /-- the boosted claim of a user keeps the per-week pool bound -/
 theorem claimBoostedYields_pool {s : St} {user farmAmt : Nat} {r : Weekly.St × B × Nat}
     (hb : PoolOK s.b) (h : claimBoostedYields s user farmAmt = some r) : PoolOK r.2.1 := by
+  have h0 := h
   unfold claimBoostedYields at h
   split at h
-  · simp only [Option.some.injEq] at h
-    subst h; exact hb
+  · rename_i hc
+    rw [(claimBoostedYields_none_spec hc h0).1]; exact hb
   · simp only [Option.bind_eq_bind, Option.bind_eq_some_iff, Option.pure_def, Option.some.injEq] at h
     obtain ⟨c', _, r', hr, rfl⟩ := h
     exact claimMulti_pres PoolOK (fun _ _ _ _ _ _ _ _ h' hp => boostedRewards_pool hp h') hr hb
